@@ -47,7 +47,7 @@ var lockStates = []string{"sync.RWMutex.Lock", "sync.RWMutex.RLock", "sync.Mutex
 // pieces with fully observable inputs/outputs (usable by the linearizability oracle).
 var (
 	linKinds = []string{"get", "getByUUID", "exist", "count", "all", "assignAll", "assignIndex", "searchLen", "insert", "update", "delete", "many", "schema", "control"}
-	allKinds = append(append([]string{}, linKinds...), "searchCollect", "searchChain", "searchOne", "searchDelete", "deleteAll", "flushAll", "flushAllCommit", "commit", "createAgain", "bulk", "iterCount", "repair")
+	allKinds = append(append([]string{}, linKinds...), "searchCollect", "searchChain", "searchOne", "searchDelete", "deleteAll", "flushAll", "flushAllCommit", "commit", "createAgain", "bulk", "iterCount", "repair", "otherCount", "otherInsert", "otherAll", "otherSearch")
 )
 
 func (g *G) COp(kinds []string) COp {
@@ -259,6 +259,16 @@ func runWorker(db *sod.DB, e *Env, w int, ops []COp, known []string, base map[st
 			call(func() { ev.Class = classify(db.Create(&Doc{}, e.cfg.Schema())) })
 		case "repair":
 			call(func() { ev.Class = classify(db.Repair(&Doc{})) })
+		// a second collection on the same handle (its schema may be loaded for the
+		// first time while other goroutines use the first collection)
+		case "otherCount":
+			call(func() { n, err := db.Count(&Other{}); ev.Class, ev.N = classify(err), n })
+		case "otherAll":
+			call(func() { _, err := db.All(&Other{}); ev.Class = classify(err) })
+		case "otherInsert":
+			call(func() { ev.Class = classify(db.InsertOrUpdate(&Other{K: int64(op.Ref), V: "v"})) })
+		case "otherSearch":
+			call(func() { _, err := db.Search(&Other{}, "K", ">=", int64(0)).Collect(); ev.Class = classify(err) })
 		}
 	}
 }
